@@ -238,9 +238,43 @@ class Api:
                 return ('QSecure', self.call_arg(node, 0, 'model'))
             if fn == 'b.model_query':
                 return ('QInsecure', self.call_arg(node, 0, 'model'))
+            if fn == '_writable_query':
+                return (self.writable_mode(node, flag_state), self.call_arg(node, 0, 'model'))
             if fn == 'session.query':
                 return ('QInsecure', node.args[0] if node.args else None)
         return None
+
+    OWN_FILTER = 'query.filter(model.project_id == security.get_project_id())'
+
+    def writable_mode(self, call, flag_state):
+        """_writable_query(model[, insecure]): model_query for admins (or insecure=True), otherwise
+        _secure_query restricted to the caller's own rows.  Recognised structurally."""
+        f = self.funcs.get('_writable_query')
+        if f is None:
+            raise TranslateError('_writable_query is not defined')
+        body = strip_doc(f.body)
+        ok = (len(body) == 4 and [a.arg for a in f.args.args] == ['model', 'insecure']
+              and isinstance(body[0], ast.If) and not body[0].orelse and len(body[0].body) == 1
+              and U(body[0].test) == 'insecure or (context.has_ctx() and context.ctx().is_admin)'
+              and U(body[0].body[0]) == 'return b.model_query(model)'
+              and U(body[1]) == 'query = _secure_query(model)'
+              and isinstance(body[2], ast.If) and not body[2].orelse and len(body[2].body) == 1
+              and U(body[2].test) == 'issubclass(model, mb.MistralSecureModelBase)'
+              and U(body[2].body[0]) == 'query = ' + self.OWN_FILTER
+              and U(body[3]) == 'return query')
+        if not ok:
+            raise TranslateError('_writable_query is not of the recognised form')
+        ins = None
+        for k in call.keywords:
+            if k.arg == 'insecure':
+                ins = k.value
+        if ins is None and len(call.args) > 1:
+            ins = call.args[1]
+        if ins is None or (isinstance(ins, ast.Constant) and ins.value is False):
+            return 'QOwnAdmin'
+        if isinstance(ins, ast.Name) and flag_state.get(ins.id) in ('QAdmin', 'false_flag'):
+            return 'QOwnAdmin'
+        raise TranslateError('_writable_query called with a caller-controlled insecure flag')
 
     @staticmethod
     def call_arg(call, pos, name):
@@ -277,11 +311,17 @@ class Api:
             # no conditional: every constructor in the body must agree
             ctors = set()
             for n in ast.walk(f):
-                if isinstance(n, ast.Call) and U(n.func) in ('_secure_query', 'b.model_query', 'session.query'):
-                    ctors.add('QSecure' if U(n.func) == '_secure_query' else 'QInsecure')
+                if isinstance(n, ast.Call) and U(n.func) in ('_secure_query', 'b.model_query', 'session.query', '_writable_query'):
+                    ctors.add('QSecure' if U(n.func) == '_secure_query' else
+                              self.writable_mode(n, {}) if U(n.func) == '_writable_query' else 'QInsecure')
             if len(ctors) != 1:
                 raise TranslateError('helper %s: cannot determine its query mode' % name)
             modes = [ctors.pop()]
+            own = [s for s in ast.walk(f) if isinstance(s, ast.If) and not s.orelse and len(s.body) == 1
+                   and U(s.test) == 'issubclass(model, mb.MistralSecureModelBase)'
+                   and U(s.body[0]) == 'query = ' + self.OWN_FILTER]
+            if own and modes == ['QSecure'] and any(s in f.body for s in own):
+                modes = ['QOwn']
         if len(set(modes)) != 1 or modes[0] is None:
             raise TranslateError('helper %s: insecure flag without the admin-override idiom' % name)
         self.helper_q[name] = modes[0]
@@ -468,12 +508,13 @@ class Api:
         a fetched object (.first()/.one()), a list (.all()) or a delete count (.delete())."""
         calls = []
         cur = node
-        while isinstance(cur, ast.Call) and isinstance(cur.func, ast.Attribute) and self.query_ctor(cur, {}) is None:
+        flags = {k: v['state_q'] for k, v in env.items() if v.get('kind') == 'flag'}
+        while isinstance(cur, ast.Call) and isinstance(cur.func, ast.Attribute) and self.query_ctor(cur, flags) is None:
             calls.append((cur.func.attr, cur))
             cur = cur.func.value
         base = None
         if isinstance(cur, ast.Call):
-            q = self.query_ctor(cur, {})
+            q = self.query_ctor(cur, flags)
             if q:
                 base = {'kind': 'query', 'model': self.model_name(q[1], env), 'q': q[0], 'attrs': set()}
         elif isinstance(cur, ast.Name) and cur.id in env and env[cur.id].get('kind') == 'query':
